@@ -6,6 +6,7 @@ import sys, os, json, time, gc, threading, signal, subprocess
 
 
 BIG = 4 << 20          # larger than any pipe buffer
+SIGNALS = {"KILL": signal.SIGKILL, "TERM": signal.SIGTERM, "SEGV": signal.SIGSEGV, "RT": signal.SIGRTMIN + 3}
 
 
 def t_ok(x):
@@ -81,7 +82,7 @@ def lifecycle(rec):
     elif end == "kill":
         e.shutdown(wait=True, kill_workers=True)
     elif end == "crash":
-        os.kill(sorted(e._processes)[0], signal.SIGKILL)
+        os.kill(sorted(e._processes)[0], SIGNALS[rec.get("sig") or "KILL"])
         collect()
         e.shutdown(wait=True)
     elif end == "timeout":
